@@ -318,6 +318,9 @@ def run_generic(key):
         mask = mask * 1e9
     elif key['kind'] == 'tiny':
         mask = mask * 1e-150
+    elif key['kind'].startswith('layout_'):
+        # generic values handed over in another memory layout (Fortran order, permuted axes, strided, reversed)
+        mask = A.relayout(mask, key['kind'][len('layout_'):])
     mask.setflags(write=False)
     snap = mask.copy()
     evals = 0
@@ -346,7 +349,8 @@ def run_generic(key):
         bad = _check_mapping(pa, mask, m, what)
         if bad:
             return bad
-        if not amb and key['kind'] in ('generic', 'huge') and not np.array_equal(m, ref):
+        if not amb and (key['kind'] in ('generic', 'huge') or key['kind'].startswith('layout_')) and \
+                not np.array_equal(m, ref):
             return viol(f'{what}: mapping differs from the reference procedure',
                         np.asarray(m).tolist(), ref.tolist())
         evals += 1
@@ -615,6 +619,9 @@ def subchecks(tier, seed):
                                 continue
                             for kind in ('generic', 'const_rows', 'zero_bin', 'tied_rows', 'huge', 'tiny'):
                                 yield (K, F, T, metric, alg, kind, seed)
+                            if K in (2, 3) and F <= 9:
+                                for lay in A.LAYOUTS[1:]:
+                                    yield (K, F, T, metric, alg, 'layout_' + lay, seed)
     subs.append(Sub('masks_generic', ('K', 'F', 'T', 'metric', 'alg', 'kind', 'seed'),
                     generic_cases, run_generic,
                     bound=dict(K='1..6', F='odd <=33', kinds=['generic', 'const', 'zero', 'tied'])))
